@@ -2,14 +2,14 @@
 
 package main
 
-// capFail reports at most 40 direct-oracle failures per signature and run (every further
+// capFail reports at most 8 direct-oracle failures per signature and run (every further
 // one is only counted): the orchestrator cuts a replay context out of ops.txt for every
 // reported failure, and the known findings recur thousands of times.
 var capFailSeen = map[string]int{}
 
 func capFail(c *Ctx, sig, detail string) {
 	capFailSeen[sig]++
-	if capFailSeen[sig] > 40 {
+	if capFailSeen[sig] > 8 {
 		c.Count("oracle-failures-not-listed-individually/" + sig)
 		return
 	}
